@@ -29,7 +29,7 @@ CLAIMED = {
             "Sent; no order-breaking queue operation; re-arm is paired with the DUP patch and resets every retained entry "
             "to Write{0} unconditionally. These are inductive "
             "who-may-mutate facts that hold for histories of any length and every crash point because they quantify "
-            "over all call sites and paths; retransmission byte-identity and counting are not computed. The acknowledgement removal takes out exactly the entry it looked up by identifier (index provenance), its lookup does not depend on data that changes while the packet is in flight, and the entry is removed before the reason code is examined; the arena clauses of C17 are evaluated here as well. The removal function reports true exactly on the paths that removed an entry. Every successful handshake stores the broker's Maximum Packet Size itself (CONNACK value or none), so a limit of an earlier connection cannot refuse the replay. ReasonCode::success is tabulated over every variant against the 0x80 boundary. The session reset is placed on the no-session edge of an accepted CONNACK (C05's clause). The recorded resume offset of a partly written packet is the count reported and every write starts at it (C13's store rule, C15's write rule): nothing is re-sent within one connection.",
+            "over all call sites and paths; retransmission byte-identity and counting are not computed. The acknowledgement removal takes out exactly the entry it looked up by identifier (index provenance), its lookup does not depend on data that changes while the packet is in flight, and the entry is removed before the reason code is examined; the arena clauses of C17 are evaluated here as well. The removal function reports true exactly on the paths that removed an entry. Every successful handshake stores the broker's Maximum Packet Size itself (CONNACK value or none), so a limit of an earlier connection cannot refuse the replay. ReasonCode::success is tabulated over every variant against the 0x80 boundary. The session reset is placed on the no-session edge of an accepted CONNACK (C05's clause). The recorded resume offset of a partly written packet is the count reported and every write starts at it (C13's store rule, C15's write rule): nothing is re-sent within one connection. Every PUBACK reaches the retained removal (no early return in front of it).",
             "DESIGN.md §4 C02"),
     "C01": ("must-dataflow (DRAINED) + table extraction/value-set folding of fixed-header flags vs MQTT 5 Table 2-2 + "
             "dominance/wiring on mir_built",
@@ -46,7 +46,7 @@ CLAIMED = {
             "the retained-removal and of the PUBREC reason check and carries the PUBREC's identifier; release entries are "
             "removed only by the PUBCOMP arm with that identifier; no order-breaking operation on the release queue; "
             "PUBREL is serialised from the step's identifier and release entries are re-armed for replay. Interleavings of "
-            "several exchanges are covered through these per-entry invariants, not enumerated. The PUBCOMP removal takes out exactly the entry it looked up (index provenance: position over the whole list, or over the tail plus one). The removal functions report true exactly when they removed an entry; the PUBREC's lookup of the PUBLISH tests the identifier only (a replayed PUBLISH has DUP set). ReasonCode::success is tabulated over every variant against the 0x80 boundary; a completed PUBREL flush marks the release entry of that identifier. A PUBREC that removed the PUBLISH and carried a success code always queues the release entry. No path through the PUBREC arm leaves the handler before the retained removal was attempted (a test in front of it would consume the PUBREC of an accepted message).",
+            "several exchanges are covered through these per-entry invariants, not enumerated. The PUBCOMP removal takes out exactly the entry it looked up (index provenance: position over the whole list, or over the tail plus one). The removal functions report true exactly when they removed an entry; the PUBREC's lookup of the PUBLISH tests the identifier only (a replayed PUBLISH has DUP set). ReasonCode::success is tabulated over every variant against the 0x80 boundary; a completed PUBREL flush marks the release entry of that identifier. A PUBREC that removed the PUBLISH and carried a success code always queues the release entry. No path through the PUBREC or PUBCOMP arm leaves the handler before the removal was attempted (a test in front of it would consume the acknowledgement).",
             "DESIGN.md §4 C03"),
     "C04": ("path-sensitive must-pass over the inbound handler arms + wiring + who-may-mutate on mir_built",
             "Static analysis, structural clauses only: in the PUBLISH arm every feasible delivering path (QoS 1) / non-error "
